@@ -8,13 +8,19 @@ use serde_json::{json, Value};
 use std::cell::RefCell;
 use std::sync::atomic::Ordering::SeqCst;
 
-pub const ARENA_PAGES: usize = 16;
+pub const ARENA_PAGES: usize = 48;      // three 64 KiB allocation-granularity regions; the arena is 64 KiB aligned
 pub struct Plat {
     pub base: u64,
     pub snap: Vec<u8>,
     pub handed: Vec<u64>,     // pages handed out by the allocation shim and not released
     pub calls: u64,
     pub fail_protect: bool,
+    /// kernel-like answers: a Unix mmap whose hint is not a free arena page answers with another (the lowest free) arena page;
+    /// a Windows VirtualAlloc rounds the address down to the 64 KiB allocation granularity
+    pub near: bool,
+    pub win: bool,
+    /// placement requests refused since the library last returned to its caller
+    pub refused: u64,
 }
 thread_local! { pub static PS: RefCell<Option<Plat>> = RefCell::new(None); }
 
@@ -115,13 +121,25 @@ fn grant(hint: u64, size: usize) -> u64 {
         let mut p = p.borrow_mut();
         let pl = p.as_mut().unwrap();
         pl.calls += 1;
-        let ok = page >= pl.base + 2 * 4096 && page + 4096 <= pl.base + (ARENA_PAGES as u64) * 4096 && size <= 4096 && !pl.handed.contains(&page);
-        if ok {
-            pl.handed.push(page);
+        let top = pl.base + (ARENA_PAGES as u64) * 4096;
+        let ok = page >= pl.base + 2 * 4096 && page + 4096 <= top && size <= 4096 && !pl.handed.contains(&page);
+        let r = if pl.near && pl.win {
+            let region = hint & !0xffff;
+            let free = region > pl.base && region + 0x10000 <= top && size <= 0x10000 && !pl.handed.iter().any(|h| h & !0xffff == region);
+            if free { region } else { 0 }
+        } else if ok {
             page
+        } else if pl.near && size <= 4096 {
+            (2..ARENA_PAGES as u64).map(|i| pl.base + i * 4096).find(|pg| !pl.handed.contains(pg)).unwrap_or(0)
         } else {
             0
+        };
+        if r != 0 {
+            pl.handed.push(r);
+        } else {
+            pl.refused += 1;
         }
+        r
     })
 }
 fn give_back(addr: u64) -> bool {
@@ -337,13 +355,15 @@ fn run_case(c: &Value) {
     let fake = c.get("fake").and_then(|x| x.as_u64()).unwrap_or(0x7f12_3456_7000);
     // arena: page 0 = target function (its entry may straddle into page 1), pages 2.. = what the allocator may get
     let len = ARENA_PAGES * 4096;
-    let base = unsafe { libc::mmap(std::ptr::null_mut(), len, libc::PROT_READ | libc::PROT_WRITE, libc::MAP_PRIVATE | libc::MAP_ANONYMOUS, -1, 0) } as u64;
-    assert!((base as i64) > 0);
+    let raw = unsafe { libc::mmap(std::ptr::null_mut(), len + 0x10000, libc::PROT_READ | libc::PROT_WRITE, libc::MAP_PRIVATE | libc::MAP_ANONYMOUS, -1, 0) } as u64;
+    assert!((raw as i64) > 0);
+    let base = (raw + 0xffff) & !0xffff;
+    let near = c.get("kernel").and_then(|x| x.as_str()) == Some("near");
     let mem = unsafe { std::slice::from_raw_parts_mut(base as *mut u8, len) };
     for (i, b) in mem.iter_mut().enumerate() {
         *b = ((i as u64).wrapping_mul(0x9E37) >> 3) as u8 | 1;
     }
-    PS.with(|p| *p.borrow_mut() = Some(Plat { base, snap: mem.to_vec(), handed: Vec::new(), calls: 0, fail_protect: false }));
+    PS.with(|p| *p.borrow_mut() = Some(Plat { base, snap: mem.to_vec(), handed: Vec::new(), calls: 0, fail_protect: false, near, win: variant.starts_with("windows"), refused: 0 }));
     let src = base + off;
     // fake = 0 in the scenario: a replacement close to the trampolines (x86-64 short trampoline form): the arena's last page
     let fake = if fake == 0 { base + (ARENA_PAGES as u64 - 1) * 4096 + 0x80 } else { fake };
@@ -352,18 +372,26 @@ fn run_case(c: &Value) {
     let r = std::panic::catch_unwind(|| unsafe {
         macro_rules! life {
             ($m:ident) => {{
-                let mut guards = Vec::new();
+                // as InjectorPP::drop does it: newest first, also when an installation panics half-way
+                struct Newest<T>(Vec<T>);
+                impl<T> Drop for Newest<T> {
+                    fn drop(&mut self) {
+                        while let Some(g) = self.0.pop() {
+                            drop(g);
+                            observe();
+                            emit(json!({"ev":"PReturn","after":"drop"}));
+                        }
+                    }
+                }
+                let mut guards = Newest(Vec::new());
                 for k in &kinds {
                     let g = $m::install(src, fake, if k.starts_with("bool") { "bool" } else { "jump" }, k == "bool1");
                     observe();
+                    PS.with(|p| p.borrow_mut().as_mut().unwrap().refused = 0);
                     emit(json!({"ev":"PReturn","after":"install"}));
-                    guards.push(g);
+                    guards.0.push(g);
                 }
-                while let Some(g) = guards.pop() {
-                    drop(g);
-                    observe();
-                    emit(json!({"ev":"PReturn","after":"drop"}));
-                }
+                drop(guards);
             }};
         }
         match variant.as_str() {
@@ -380,10 +408,11 @@ fn run_case(c: &Value) {
     observe();
     let restored = mem[off as usize..off as usize + 16] == orig[..];
     let held = PS.with(|p| p.borrow().as_ref().map(|x| x.handed.len()).unwrap_or(0));
-    emit(json!({"ev":"PEnd","outcome": if r.is_ok() { "ok" } else { "panic" },"restored":restored,"held":held,
+    let refused = PS.with(|p| p.borrow().as_ref().map(|x| x.refused).unwrap_or(0));
+    emit(json!({"ev":"PEnd","outcome": if r.is_ok() { "ok" } else { "panic" },"restored":restored,"held":held,"refused_in_call":refused.min(1 << 30),
         "msg": r.err().map(|e| crate::panics::payload_str(&*e)).unwrap_or_default()}));
     PS.with(|p| *p.borrow_mut() = None);
-    unsafe { libc::munmap(base as *mut libc::c_void, len) };
+    unsafe { libc::munmap(raw as *mut libc::c_void, len + 0x10000) };
 }
 
 /// allocator-only case: {"mode":"alloc","variant":..,"src":..,"free_deltas":[page deltas],"elsewhere":addr|0,"null_answer":addr|0}
